@@ -345,6 +345,32 @@ func genRender(ctx *Ctx, emit func(any, string)) {
 		emit(RenderInput{Tree: &Node{T: "stack", Kind: "OR", Opt: 1, Els: []*Node{leafOf(s), leafOf("m"), leafOf(s)}}}, "exhaustive")
 		emit(RenderInput{Tree: &Node{T: "stack", Kind: "AND", Els: []*Node{leafOf("m"), {T: "stack", Kind: "LIST", Delim: ",", Opt: 4, Els: []*Node{leafOf(s), leafOf(s)}}}}}, "exhaustive")
 	}
+	// size is no limit: 600 leaves side by side, 70 levels of nesting, a text of 1800 bytes
+	{
+		nw, nd, nl := 600, 70, 200
+		if !ctx.Quick() {
+			nw, nd, nl = 1200, 150, 500
+		}
+		wide := &Node{T: "stack", Kind: "AND", Opt: 1}
+		lst := &Node{T: "stack", Kind: "LIST", Delim: ",", Enc: [][]string{{"<", ">"}}}
+		for i := 0; i < nw; i++ {
+			wide.Els = append(wide.Els, leafOf(fmt.Sprintf("v%d", i%37)))
+			lst.Els = append(lst.Els, leafOf(fmt.Sprintf("w %d", i%11)))
+		}
+		emit(RenderInput{Tree: wide}, "exhaustive")
+		emit(RenderInput{Tree: &Node{T: "stack", Kind: "OR", Sym: "|", Opt: 8, Els: []*Node{leafOf("x"), lst}}}, "exhaustive")
+		var deep *Node = &Node{T: "stack", Kind: "OR", Els: []*Node{leafOf("p"), leafOf("q")}}
+		for d := 0; d < nd; d++ {
+			if d%5 == 4 {
+				deep = &Node{T: "stack", Kind: "AND", Opt: d % 2, Els: []*Node{{T: "cond", Kw: "k", Op: &OpDesc{Builtin: 1 + d%6}, Ex: deep}, leafOf("s")}}
+			} else {
+				deep = &Node{T: "stack", Kind: []string{"AND", "OR", "NOT"}[d%3], Opt: (d % 2) | (d%3)&2, Els: []*Node{leafOf("l"), deep}}
+			}
+		}
+		emit(RenderInput{Tree: deep}, "exhaustive")
+		long := strings.Repeat("ab  c\td ", nl)
+		emit(RenderInput{Tree: &Node{T: "stack", Kind: "AND", Els: []*Node{leafOf(long), leafOf("z"), {T: "cond", Kw: "k", Op: &OpDesc{Builtin: 1}, Ex: leafOf(long)}}}}, "exhaustive")
+	}
 	// number leaves at the edges of their types
 	for _, l := range []*Node{{T: "int", I: -7}, {T: "int", Ty: 4, I: -9223372036854775808}, {T: "int", Ty: 4, I: 9223372036854775807},
 		{T: "int", Ty: 14, I: 9223372036854775807}, {T: "int", Ty: 1, I: -128}, {T: "float", Ty: 21, F: -0.5}, {T: "float", Ty: 20, F: 0.1}, {T: "float", Ty: 22, F: 0.1, F2: 0.2}, {T: "float", Ty: 22, F: -1.1}, {T: "float", Ty: 23, F: 0.1, F2: -0.3}, {T: "bool", Bv: true}} {
